@@ -26,7 +26,7 @@ CLAIMED = {
          'Decides absence of shared writable state; does not decide interleavings or equality of per-thread results. Table exemptions (exception what_ caches; JSONPath null_value static) are listed with reasons and a checked supporting fact.',
          'DESIGN.md §4 C20'),
  'C01': ('partial evaluation of the encoder escape function per character and comparison with the parser un-escape table; structural \\u/surrogate constants; data()/size() pairing lint; parser resume-state rule',
-         'Static table agreement and pairing rules: the encoder escape table (256 characters x escape_solidus, char and wchar_t) is the inverse of the RFC 8259 un-escape table the parser is verified against, control characters always leave through a four-digit \\u path with the standard surrogate split, no (pointer,length) pair mixes two objects, and the parser resumes string tokens where it left them. Necessary structural clauses of lossless round-trip.',
+         'Static table agreement and pairing rules: the encoder escape table (256 characters x escape_solidus, char and wchar_t) is the inverse of the RFC 8259 un-escape table the parser is verified against, control characters always leave through a four-digit \\u path with the standard surrogate split, no (pointer,length) pair mixes two objects, and the parser resumes string tokens where it left them. Necessary structural clauses of lossless round-trip. Also: the pretty and the compact encoder write the same value text for every value event (sibling agreement R01.3).',
          'Decides the escape/un-escape agreement and the listed pairing rules; does not decide byte-for-byte canonicity under all options, Grisu3/from_chars or the pretty-printer column arithmetic.',
          'DESIGN.md §4 C01'),
  'C05': ('per-site safety obligations: bounded snprintf lengths (static bound or dominating upper-bound test), regex construction inside converting try/catch, clamped slice steps, value-set analysis of every __builtin_unreachable, margin typestate (must-dataflow) for cursor dereferences in the character scanners and for the state stacks of the expression compilers',
